@@ -226,6 +226,15 @@ func Program(t *rapid.T, f PFlags) Prog {
 		forms = append(forms, call("trace!", call(gn, val.I(1))))
 		sc = sc.with(tvar{k, TInt}, tvar{gn, TFn})
 	}
+	// a macro that is re-defined between two evaluations of the same call site
+	if f.Macros && Chance(t, "macro-redef", 5) {
+		g.use("macro-redefinition")
+		mk := func(k int) val.V {
+			return call("defmacro", sym("mr"), call("fn", lst(sym("x")), call("list", call("quote", sym("list")), sym("x"), val.I(k))))
+		}
+		forms = append(forms, mk(1), call("def", sym("fr"), call("fn", lst(sym("a")), call("mr", sym("a")))),
+			call("trace!", call("fr", val.I(5))), mk(2), call("trace!", call("fr", val.I(5))))
+	}
 	// every closure-collecting loop is consumed at least once
 	for _, rc := range append(sc.of(tRecC0), sc.of(tRecC1)...) {
 		arg := lst(sym("f"))
@@ -454,6 +463,20 @@ func (g *pg) expr(ty Ty, d int, sc scope) val.V {
 	case TFn:
 		return g.fnExpr(d, sc)
 	default:
+		if g.chance("nestedlit", 8) {
+			// collection literals nested two or more levels deep, with variables / calls inside
+			g.use("nested-literal")
+			inner := val.Vc(g.expr(TInt, d-1, sc))
+			switch g.pick("nestlitk", 4) {
+			case 0:
+				return val.Vc(inner)
+			case 1:
+				return val.Vc(val.I(1), val.Vc(g.leaf(TInt, sc), inner))
+			case 2:
+				return val.M(map[string]val.V{val.KwMark + "c": val.I(0), val.KwMark + "nested": val.Vc(val.I(1), inner)})
+			}
+			return val.Vc(val.Vc(val.Vc(call("trace!", g.nextTrace()))), val.I(2))
+		}
 		if g.chance("anymap", 6) {
 			// map literal: evaluation order of the values is unspecified -> at most one effectful value
 			return val.M(map[string]val.V{val.KwMark + "a": val.I(g.pick("mapconst", 9)), val.KwMark + "b": g.expr(TInt, d-1, sc)})
